@@ -17,6 +17,7 @@ PARTS += ["hkshape"]      # no generated file: the pinned shape of util._biparti
 PARTS += ["ioload"]       # mir_eval/io.py loaders -> MirGen/IOLoad.lean (C20)
 PARTS += ["chordfns"]
 PARTS += ["chordfns_rotate"]
+PARTS += ["segindex"]
 
 
 def write_if_changed(path, text):
